@@ -16,7 +16,7 @@ namespace rt {
 Global G;
 __thread SimThread *tl_self;
 __thread int tl_in_rt;
-const char *const fault_names[F_NKINDS] = {"preempt", "cas_weak_spurious", "spurious_cv_wake", "spurious_futex_wake", "stall", "clock_advance", "timeout_vs_notify"};
+const char *const fault_names[F_NKINDS] = {"preempt", "cas_weak_spurious", "spurious_cv_wake", "spurious_futex_wake", "stall", "clock_advance"};
 
 // ------------------------------------------------------------------ prng
 static inline u64 rotl(u64 x, int k) { return (x << k) | (x >> (64 - k)); }
